@@ -87,6 +87,7 @@ func ZZ_L2() {
 		return newProcess(e, opts)
 	}
 	p := mk(0)
+	poisonDone, drainedFirst, doneEarly := false, true, false
 	accepted := make([][]bool, T)
 	crashBudget := 0
 	if crashOK {
@@ -109,6 +110,48 @@ func ZZ_L2() {
 				// accepted = it did not become a dead letter (the PID was registered)
 				accepted[t][j] = !sink.deadLetterFor(t*100 + j)
 			}
+			if prop == 7 && t == 0 {
+				// this sender then poisons the actor and waits: when its context is done, everything it sent
+				// before (and that was accepted) has been handled, Stopped has been handled, the PID is gone
+				ctx := e.Poison(p.pid)
+				<-ctx.Done()
+				poisonDone = true
+				for j := 0; j < M; j++ {
+					if accepted[t][j] {
+						found := false
+						for _, r := range mon.recs {
+							if r.kind == zzKUser && r.seq == t*100+j {
+								found = true
+							}
+						}
+						if !found {
+							drainedFirst = false
+						}
+					}
+				}
+				stoppedSeen := false
+				for _, r := range mon.recs {
+					if r.kind == zzKStopped {
+						stoppedSeen = true
+					}
+				}
+				// a Poison that found nobody registered under the id (the spawner had not run yet) is answered at
+				// once with a dead letter and says nothing about the actor spawned afterwards
+				pillDeadLettered := false
+				for _, ev := range sink.evs {
+					if d, ok := ev.(DeadLetterEvent); ok {
+						if _, ok := d.Message.(poisonPill); ok {
+							pillDeadLettered = true
+						}
+					}
+				}
+				if !pillDeadLettered && (!stoppedSeen || e.Registry.get(p.pid) != nil) {
+					doneEarly = true
+				}
+				if !pillDeadLettered {
+					zzrt.Reach("poison-accepted")
+				}
+			}
 		})
 	}
 	var p2 *process
@@ -123,6 +166,63 @@ func ZZ_L2() {
 	if prop == 2 {
 		if mon.crashes > 0 {
 			zzrt.Reach("restart")
+		}
+		return
+	}
+	if prop == 7 {
+		zzrt.Assert(poisonDone, "C07:stop-context-never-done")
+		zzrt.Assert(drainedFirst, "C07:poison-drains-earlier-messages-first")
+		zzrt.Assert(!doneEarly, "C07:done-only-after-Stopped-handled-and-unregistered")
+		for _, r := range mon.recs {
+			_ = r
+		}
+		zzrt.Reach("poison-waited-for")
+		return
+	}
+	if prop == 5 {
+		// concurrent senders while the actor crashes and restarts (the restart runs on the inbox worker while the
+		// senders keep pushing): every accepted message is handed to Receive exactly once - the failing one
+		// included, and it is not redelivered -, per-sender order is kept across the incarnations, each
+		// incarnation sees Initialized, Started before any message, the failed one is told Stopped
+		if mon.crashes > 0 {
+			zzrt.Reach("restart")
+		}
+		seen := map[int]int{}
+		last := make([]int, T)
+		for t := range last {
+			last[t] = -1
+		}
+		state := map[int]int{}
+		for _, r := range mon.recs {
+			switch r.kind {
+			case zzKInit:
+				zzrt.Assert(state[r.inc] == 0, "C05:fresh-incarnation-not-initialised-first")
+				state[r.inc] = 1
+			case zzKStarted:
+				zzrt.Assert(state[r.inc] == 1, "C05:fresh-incarnation-not-initialised-first")
+				state[r.inc] = 2
+			case zzKStopped:
+				state[r.inc] = 3
+			case zzKUser:
+				zzrt.Assert(state[r.inc] == 2, "C05:message-delivered-to-an-incarnation-that-is-not-started")
+				seen[r.seq]++
+				t, j := r.seq/100, r.seq%100
+				zzrt.Assert(j > last[t], "C05:message-redelivered-or-reordered")
+				last[t] = j
+			}
+		}
+		for t := range accepted {
+			for j := range accepted[t] {
+				if accepted[t][j] {
+					zzrt.Assert(seen[t*100+j] == 1, "C05:queued-messages-delivered-exactly-once")
+				}
+			}
+		}
+		if mon.crashes > 0 {
+			zzrt.Assert(state[1] == 3, "C05:failed-incarnation-not-told-Stopped")
+			zzrt.Assert(mon.incs == mon.crashes+1, "C05:fresh-receiver-per-crash")
+			n, ordOK := sink.countRestarted()
+			zzrt.Assert(n == mon.crashes && ordOK, "C05:one-ActorRestartedEvent-per-crash")
 		}
 		return
 	}
